@@ -311,7 +311,14 @@ def run_case(case):
     info = dict(events=0, posted=0, stale=0, handlers=set(), exc=None, oracle=[])
     cur = {}
 
-    def wrap(ef, posted_time=None, locus=None):
+    ref = {}          # reference model of the pending events: id -> (time, element)   (C04 oracle)
+    qv = []
+
+    def qviol(msg):
+        if not qv:
+            qv.append(msg); info['oracle'].append(('queue', msg))
+
+    def wrap(ef, posted_time=None, locus=None, cell=None):
         if getattr(ef, '_wrapped', False) and posted_time is None and locus is None:
             return ef
         orig = getattr(ef, '_orig', ef)
@@ -320,6 +327,17 @@ def run_case(case):
             cur.update(h=t, clock=d.currentSimulationTime(), ef=orig, posted=posted_time is not None,
                        own=posted_time if posted_time is not None else t, locus=locus,
                        member=is_member(locus, e) if locus is not None else True)
+            if cell is not None:
+                i = cell.get('id')
+                if i not in ref:
+                    qviol(f"event id {i} fired but was not pending (fired twice, or after being un-posted)")
+                else:
+                    (rt, re_) = ref.pop(i)
+                    if rt != t or re_ != e:
+                        qviol(f"event id {i} posted for t={rt} on {re_} but its handler got t={t}, element {e}")
+                    earlier = [(tt, j) for j, (tt, _) in ref.items() if (tt, j) < (rt, i)]
+                    if earlier:
+                        qviol(f"event id {i} (t={rt}) fired before pending event {min(earlier)[1]} (t={min(earlier)[0]})")
             return orig(t, e)
         w._wrapped = True; w._orig = orig
         return w
@@ -347,7 +365,41 @@ def run_case(case):
                        f"{'P' if cur['posted'] else 'S'} {key} {es} log=[{' '.join(log)}] | " + state_line(self, ex))
 
         def postEvent(self, t, p, e, ef, name=None):
-            return super().postEvent(t, p, e, wrap(ef, posted_time=t), name)
+            cell = {}
+            past = t < self.currentSimulationTime()
+            try:
+                i = super().postEvent(t, p, e, wrap(ef, posted_time=t, cell=cell), name)
+            except ValueError:
+                if not past: qviol(f"postEvent({t}) at time {self.currentSimulationTime()} raised ValueError")
+                raise
+            if past: qviol(f"postEvent({t}) into the past (now {self.currentSimulationTime()}) was accepted")
+            if i in ref or i in st.setdefault('ids', set()): qviol(f"postEvent returned id {i}, which was already used")
+            st['ids'].add(i); cell['id'] = i; ref[i] = (t, e)
+            return i
+
+        def unpostEvent(self, id, fatal=True):
+            try:
+                r = super().unpostEvent(id, fatal)
+            except KeyError:
+                if id in ref: qviol(f"unpostEvent({id}) raised KeyError but the event is pending for {ref[id][0]}")
+                elif not fatal: qviol(f"unpostEvent({id}, fatal=False) raised KeyError")
+                raise
+            if id in ref:
+                if r != ref[id][0]: qviol(f"unpostEvent({id}) returned {r}, the event was due at {ref[id][0]}")
+                del ref[id]
+            elif r is not None or fatal:
+                qviol(f"unpostEvent({id}, fatal={fatal}) returned {r} for an event that is not pending")
+            return r
+
+        def pendingEventTime(self, id):
+            try:
+                r = super().pendingEventTime(id)
+            except KeyError:
+                if id in ref: qviol(f"pendingEventTime({id}) raised KeyError but the event is pending for {ref[id][0]}")
+                raise
+            if id not in ref: qviol(f"pendingEventTime({id}) returned {r} for an event that is not pending")
+            elif r != ref[id][0]: qviol(f"pendingEventTime({id}) returned {r}, the event is due at {ref[id][0]}")
+            return r
 
     d = D(top, Gen(case['nodes'], case['edges']))
     orig_build = top.build
@@ -415,6 +467,11 @@ def run_case(case):
                        f"steps={md[SynchronousDynamics.TIMESTEPS_WITH_EVENTS]} leftover={left}")
         info['results'] = {k: v for k, v in res.items() if isinstance(v, (int, float, str))}
         info['metadata_events'] = md[Dynamics.EVENTS]; info['time'] = md[Dynamics.TIME]
+        if case['dyn'] == 'sto':
+            late = [(tt, j) for j, (tt, _) in ref.items() if tt < md[Dynamics.TIME]]
+            if late: qviol(f"run ended at {md[Dynamics.TIME]} with event id {min(late)[1]} still pending for {min(late)[0]}")
+        if md[Dynamics.EVENTS] != info['events']:
+            info['oracle'].append(('clock', f"metadata reports {md[Dynamics.EVENTS]} events, the tap saw {info['events']}"))
     except RecursionError:
         raise
     except Exception as ex_:
